@@ -760,6 +760,9 @@ def evidence(prop, tier, seed, info, cases, n_spec, disagreements, failures, bro
                          'tools/extract.py (translator: field tables, keys, constants, renderer tables regenerated from /repo on this run)',
                          'correspondence check harness/ (differential; sizes below)',
                          'lean/UbxModel/Spec/*.lean (hand transcription of the u-blox interface description / NMEA 0183)']
+                        + (['source-level translators tools/pysrc2lean*.py for ' + ', '.join(spec['source_tie']) + ' (syntax-directed, Python AST -> Lean; what they '
+                            'model instead of translate is listed at the top of lean/UbxModel/Model/Py*.lean and in DESIGN.md §6); state of the tie on this run: see source_tie']
+                           if spec.get('source_tie') else [])
                         + spec.get('trusted', []),
         'theorems': names,
         'evaluations': len(cases),
